@@ -6,6 +6,7 @@ import (
 	"fmt"
 	"os"
 	"sort"
+	"strconv"
 	"strings"
 
 	"golang.org/x/tools/go/ssa"
@@ -309,6 +310,19 @@ func c06AllowedReject(a BExpr) (BExpr, string) {
 				return mkOrd(x.A, ">", x.B), "len(data) < pageSize"
 			}
 			return mkOrd(x.A, "<", x.B), "len(data) < pageSize"
+		case x.A == "builtin:len(param:data)" || x.B == "builtin:len(param:data)":
+			// shorter than some smaller constant (the length guard of a hand-written prefix
+			// test): a fortiori shorter than a page
+			other := x.A
+			if x.A == "builtin:len(param:data)" {
+				other = x.B
+			}
+			if k, err := strconv.Atoi(other); err == nil && k >= 0 && k <= 16384 {
+				if x.A == other {
+					return mkOrd(x.A, ">", x.B), "len(data) < pageSize"
+				}
+				return mkOrd(x.A, "<", x.B), "len(data) < pageSize"
+			}
 		case strings.Contains(d, "*conv<*uint32>"):
 			// a comparison of the header-length word, as the code wrote it
 			return a, "header length out of range"
